@@ -174,8 +174,15 @@ def _strip(path):
 
 
 def _compare(dirA, dirB, label, case, res_violations, site=None):
-    for item in ("infretis_data.txt",):
-        a, b = os.path.join(dirA, item), os.path.join(dirB, item)
+    def _dname(d):
+        try:
+            return os.path.basename(_strip(os.path.join(d, "restart.toml"))["output"].get("data_file", "infretis_data.txt"))
+        except Exception:       # noqa
+            return "infretis_data.txt"
+    for item in ("data file",):
+        # the file each run wrote (infretis_data_1.txt when the directory already held an earlier run's file)
+        a, b = os.path.join(dirA, _dname(dirA)), os.path.join(dirB, _dname(dirB))
+        item = os.path.basename(a)
         if not (os.path.isfile(a) and os.path.isfile(b)) or not filecmp.cmp(a, b, shallow=False):
             la = open(a).read().splitlines() if os.path.isfile(a) else []
             lb = open(b).read().splitlines() if os.path.isfile(b) else []
